@@ -35,6 +35,15 @@ PLANS = {
 # 32 bits (packer error), "obj" = a non-AVP object in the AVP list (AttributeError/TypeError)
 BAD = {"A": {2: "hdr"}, "B": {3: "avp"}, "C": {3: "obj"}, "D": {3: "hdr"}, "E": {}, "F": {2: "avp", 4: "obj"}}
 PLANS["F"] = {"q1": [1, 2, 3], "q2": [4, 5]}
+# plans with a prelude: the messages of PRE are queued and reach the write buffer at the atomic grain; exploration starts at
+# the instant the I/O loop is inside send() for them, holding the write lock - the queueing threads start right there.
+# (Interleavings that need the lock held while a message is queued are otherwise 2-3 preemptions deep.)  Byte oracle only:
+# the prelude is not recorded, so these executions are not validated as WriteBuf traces.
+PLANS["G"] = {"q1": [2], "q2": [3]}
+PLANS["H"] = {"q1": [2, 3], "q2": [4]}
+PRE = {"G": [1], "H": [1]}
+BAD["G"] = {}
+BAD["H"] = {}
 
 
 def mk_msg(i, bad):
@@ -115,7 +124,8 @@ def run_one(plan_name, script, policy, trace=True):
         assert conn is not None and conn.state == ns.peer.PEER_READY, "setup failed"
         base = len(vc.sock.sent)
         vc.sock.send_script.extend(script)
-        nmsg = sum(len(v) for v in plan.values())
+        pre = PRE.get(plan_name, [])
+        nmsg = sum(len(v) for v in plan.values()) + len(pre)
         objs = {i: mk_msg(i, bad.get(i)) for i in range(1, nmsg + 1)}
         order = []
         sends = []
@@ -136,6 +146,8 @@ def run_one(plan_name, script, policy, trace=True):
             n = len(data)
             # the argument has been evaluated (WriteBuf's `snap`), the system call has not happened yet: socket.send releases the
             # interpreter lock, so the writer and the queueing threads run during it - a scheduling point of its own
+            if pre and not started[0]:
+                start_exploration()
             if getattr(s, "tracing", False):
                 s.yield_now(("call", "io", "send"))
             try:
@@ -160,12 +172,24 @@ def run_one(plan_name, script, policy, trace=True):
         s.on_switch = on_switch
         for q in sorted(plan):
             simrt.Thread(target=queuer, args=(q,), name=q)
-        s.policy = policy
-        s.tracing = True
-        for t in s.threads:
-            if t.name in plan:
-                t.start()
+        started = [False]
+
+        def start_exploration():
+            started[0] = True
+            s.policy = policy
+            s.tracing = True
+            for t in s.threads:
+                if t.name in plan:
+                    t.start()
+        if pre:
+            for i in pre:
+                conn.add_out_msg(objs[i])
+                order.append(i)
+        else:
+            start_exploration()
         s.run()
+        if not started[0]:
+            raise simrt.MachineryError("prelude of plan %s never reached send()" % plan_name)
         s.tracing = False
         s.policy = None
         # drain: the script may have ended with soft errors; the loop retries at wakeup
@@ -254,12 +278,12 @@ def run(tier, seed):
     load()
     P = 3 if thorough else 2
     items = []
-    for plan in (["A", "E", "C", "B", "D", "F"] if thorough else ["A", "E", "C", "F"]):
+    for plan in (["A", "E", "C", "B", "D", "F", "G", "H"] if thorough else ["A", "E", "C", "F", "G", "H"]):
         nb = 80 * sum(len(v) for v in PLANS[plan].values())
         scripts = gen_scripts(tier, seed + len(plan), nb)
         for i, sc in enumerate(scripts):
             # the full preemption bound on the small plans; bound 1 + run cap on the larger ones
-            small = plan in ("A", "E")
+            small = plan in ("A", "E", "G")
             if plan == "F" and i > 2 and not thorough:
                 continue
             items.append((plan, sc, P if small else (2 if thorough else 1), 6000 if thorough else 900))
@@ -272,7 +296,10 @@ def run(tier, seed):
         resolved = resolved and out["resolved"]
         for sig, detail, rp in out["viol"]:
             ck.violation(sig, detail, rp)
-        traces_by_plan.setdefault(item[0], {"enclen": out["enclen"], "tr": []})["tr"] += [(ev, sc, item[1]) for ev, sc in out["traces"]]
+        if item[0] not in PRE:
+            traces_by_plan.setdefault(item[0], {"enclen": out["enclen"], "tr": []})["tr"] += [(ev, sc, item[1]) for ev, sc in out["traces"]]
+        else:
+            ck.cov["executions_started_inside_send"] = ck.cov.get("executions_started_inside_send", 0) + out["execs"]
         if out["sample"]:
             ck.sample(out["sample"], limit=4)
     ck.cov["evaluations"] = execs
